@@ -15,7 +15,13 @@ checks, na = [], []
 for pid in ids:
     spec = PROPS.get(pid)
     if spec and "claim" in spec and os.path.exists(os.path.join(V, "harness", "prop_%s.cpp" % pid)):
-        c = spec["claim"]
+        c = dict(spec["claim"])
+        if pid not in ("C19", "C20"):      # the two stages every other check runs on top of its own engines (verif.py AUX)
+            c["text"] += (" On top of this, the check runs this property's functions (a) in generated thread programs under ThreadSanitizer, threads first and a solo run afterwards, in fresh processes, so that"
+                          " anything built on first use is first used concurrently (C20's harness restricted to this property's operation kinds), and (b) with every allocation they perform failing in turn, followed by"
+                          " a digest of unrelated calls that must be unchanged (C19's enumerator restricted to this property's operations): a result that is wrong only under concurrent first use or after a failed"
+                          " allocation is reported as a violation of this property.")
+            c["technique"] += "; plus family-restricted concurrent-use (ThreadSanitizer) and allocation-fault stages"
         checks.append({
             "property_id": pid,
             "quick_cmd": "python3 verif.py check %s --tier quick" % pid,
